@@ -26,7 +26,8 @@ RULE = ("(ii) every stream of the constant grammar shared with C10 (value shapes
 ASSUMPTIONS = [
     "ground truth = canonical tree of marshal.loads in the producing interpreter (2.7.18, 3.6.15 .. 3.13.0)",
     "transplant oracle (versions without interpreter, same code-object byte layout) is derived: DESIGN 3.4",
-    "versions <= 2.2 and PyPy/Graal: not covered here beyond the corpus files of C12/C11 (no interpreter)",
+    "versions without interpreter (1.0-2.6, 3.0-3.5, PyPy): corpus files compared with the independent reader M-marshal, "
+    "which is replayed against the nine real interpreters on every farm case (coverage.counts.model_conformance_M-marshal)",
     "tolerances of DESIGN 3.2 (py2 str as str-or-bytes, LongTypeForPython3 as int in py3 files)",
 ]
 
@@ -63,7 +64,21 @@ def marshal_version_for(ver):
 
 
 def cases(plan, tier, shard, nshards, host):
+    import glob
+    import os
+
     from gen.canon import hx
+
+    # (iv) the historical corpus, incl. the versions no interpreter exists for: reference = the independent model
+    # M-marshal (models/m_marshal.py), whose conformance with the nine real interpreters is replayed below on every
+    # farm case of this run
+    n = 0
+    for f in sorted(glob.glob(os.path.join(common.REPO, "test", "bytecode_*", "*.pyc"))):
+        if "dropbox" in f or os.path.getsize(f) > (60000 if tier == "quick" else 400000):
+            continue
+        n += 1
+        if n % nshards == shard:
+            yield {"kind": "corpus", "path": os.path.relpath(f, common.REPO)}
 
     for v in common.REFS:
         src_ver = common.vt(v)
@@ -132,10 +147,12 @@ def rename_linetable(tree, new):
 
 
 def case_key(case):
-    return case["pyc"]
+    return case.get("pyc") or case["path"]
 
 
 def describe(case):
+    if case["kind"] == "corpus":
+        return case
     return {"kind": case["kind"], "program": case["id"], "produced_by": case["ver"], "read_as": case["tver"],
             "pyc_bytes": len(case["pyc"]) // 2}
 
@@ -171,9 +188,24 @@ def run_case(case, ctx):
     import xdis.unmarshal
     from xdis.load import load_module_from_file_object
 
+    if case["kind"] == "corpus":
+        return run_corpus(case, ctx)
     tver = tuple(case["tver"])
     data = unhx(case["pyc"])
     hl = case["hdrlen"]
+    # model conformance: M-marshal must reproduce the real interpreter's tree on every farm case
+    from models import m_marshal
+
+    try:
+        mt, used = m_marshal.loads(data[hl:], tver)
+        md = tree_diff(case["tree"], mt, nan_loose=(tver < (2, 5) or bool(case.get("textfloat"))))
+        if md or used != len(data) - hl:
+            ctx.violation("HARNESS:M-marshal-conformance:%d.%d" % tver, "model disagrees with the real interpreter at %s (consumed %d of %d)"
+                          % (md, used, len(data) - hl))
+        else:
+            ctx.count("model_conformance_M-marshal")
+    except Exception as e:
+        ctx.violation("HARNESS:M-marshal-raises:%d.%d:%s" % (tver + (type(e).__name__,)), repr(e))
     magic_int = struct.unpack("<H", data[:2])[0]
     ctx.count("cases_%s_%d.%d" % (case["kind"], tver[0], tver[1]))
     # (a) the public loader.  A transplant onto the host's own magic would hand foreign bytecode to the
@@ -218,6 +250,52 @@ def run_case(case, ctx):
             d = tree_diff(case["tree"], xcanon(co2, tver), nan_loose=(tver < (2, 5) or bool(case.get("textfloat"))))
             if d:
                 ctx.violation(sig_of_diff(tver, d), "load_code tree differs at %s: expected %s got %s" % d)
+
+
+def run_corpus(case, ctx):
+    import os
+    import re
+
+    from models import m_marshal
+    from xdis.load import load_module_from_file_object
+
+    path = os.path.join(common.REPO, case["path"])
+    m = re.search(r"bytecode_(\d)\.(\d+)(pypy|graal)?", case["path"]) or re.search(r"bytecode_(pypy|graal)(\d)(\d+)", case["path"])
+    if m.group(1) in ("pypy", "graal"):
+        ver, variant = (int(m.group(2)), int(m.group(3))), m.group(1)
+    else:
+        ver, variant = (int(m.group(1)), int(m.group(2))), m.group(3) or ""
+    vtag = "corpus-%d.%d%s" % (ver[0], ver[1], variant)
+    with open(path, "rb") as f:
+        data = f.read()
+    ctx.count("corpus_files")
+    # the header length is whichever of 8 / 12 / 16 lets the independent model consume the file exactly
+    model = None
+    for hl in (8, 12, 16):
+        try:
+            t, used = m_marshal.loads(data[hl:], ver)
+            if used == len(data) - hl and t.get("t") == "code":
+                model = (t, hl)
+                break
+        except Exception:
+            continue
+    if variant == "pypy" and ver == (3, 2):
+        # PyPy 3.2 marshals identifiers as byte strings; whether they are text or bytes has no reference here
+        # (the same open question as the C12 known finding about PyPy 3.2 names)
+        ctx.count("corpus_no_reference_%s" % vtag)
+        return
+    if model is None:
+        ctx.count("corpus_model_cannot_parse_%s" % vtag)  # no reference for this file (e.g. PyPy-only type codes)
+        return
+    try:
+        res = load_module_from_file_object(io.BytesIO(data), filename=path)
+    except Exception as e:
+        ctx.violation("%s:load-raises:%s" % (vtag, type(e).__name__), "%s: %s" % (case["path"], str(e)[:200]))
+        return
+    ctx.count("corpus_compared_%s" % vtag)
+    d = tree_diff(model[0], xcanon(res[3], ver), nan_loose=ver < (2, 5))
+    if d:
+        ctx.violation(sig_of_diff(ver, d).replace("%d.%d:" % ver, vtag + ":", 1), "%s differs from the reference model at %s: expected %s got %s" % ((case["path"],) + d))
 
 
 class _Skip(Exception):
